@@ -54,7 +54,8 @@ reg(Prop(
          'ThreadSanitizer report with an fcppt frame is a violation (reports are deduplicated). distinct = history text / interleaving signature / round seed.'
          ' A third of the sequential histories use level streams without a formatter or with a custom one (per level); the emitted text is judged for each kind.'
          ' Spinning lock-free readers: two writers set real levels on prefixes while two readers spin on level() / enabled(fatal) of objects below them; every observed level must be the root level or the level of some set on a prefix (about 7e7 reads per quick run).'
-         ' Unnamed components: all 4^4 combinations of the names gfx / (empty) / cache / x at depth 0..3, created through locations and through parent objects; the text carries all named ancestors in order.',
+         ' Unnamed components: all 4^4 combinations of the names gfx / (empty) / cache / x at depth 0..3, created through locations and through parent objects; the text carries all named ancestors in order.'
+         ' The level macros FCPPT_LOG_DEBUG / FCPPT_LOG_ERROR as the unbraced branches of an if / else, for every object level and both conditions.',
     assumptions=COMMON_ASSUMPTIONS + [
         'operation A precedes B only if A.return + 2us < B.call (clock granularity can only remove constraints)',
         'lock-free reads are judged as regular registers, deliberately weaker than linearizability: set updates a subtree node by node',
